@@ -2,6 +2,7 @@ SPECIFICATION Spec
 CONSTANTS
   MaxOps = 4
   RunNames <- MCRunNames1
+  Priors <- MCPriors
 INVARIANTS
   TypeOK
   Exclusive
